@@ -26,8 +26,8 @@ RULE = ("per function of distance3d.distance.__all__ (34): pairs of primitives o
         "coplanar / touching / contained / coincident; general stream = random poses, log-uniform sizes, second "
         "primitive placed at a random gap (overlapping .. far) from the first; inputs with a direction cosine "
         "between characteristic directions of the two primitives strictly inside (0, 1e-2) of parallel or "
-        "perpendicular are rejected (the property's excluded epsilon bands; for point_to_circle the direction "
-        "is that of point - centre against the circle plane); a case is non-trivial when the two primitives "
+        "perpendicular are rejected (the property's excluded epsilon bands; no exclusion for point_to_circle, whose "
+        "band is closed by a theorem); a case is non-trivial when the two primitives "
         "are not the identity-pose fixture; distinct = distinct (function, rounded arguments)")
 EXPLANATION = ("f_opt / f_mem / f_dist are Lean theorems for point_to_triangle (all seven Voronoi regions), "
                "point_to_rectangle, point_to_box, point_to_disk, point_to_cylinder and point_to_circle on the faithful "
@@ -43,9 +43,11 @@ PARTIAL = {
                                             "hypothesis that _line_to_triangle's result on the carrier line is feasible and "
                                             "globally optimal (that hypothesis is line_to_triangle_opt, not proved; the "
                                             "search checks it numerically on every run)",
-    "point_to_circle_opt": "hypotheses exclude the function's own epsilon band 0 < |dip|^2 < epsilon (inside it the as-is code "
-                           "is not optimal: pointToCircle_asIs_counterexample, known finding F-C11-circle-axis-band) and "
-                           "pytransform3d's band 0 < |n.z| < 1e-7 (there the returned point leaves the circle plane)",
+    "point_to_circle_opt": "exact optimality / membership: hypotheses exclude the band 0 < |dip|^2 < epsilon^2 (code as of /repo "
+                           "0e4a1a6) and pytransform3d's band 0 < |n.z| < 1e-7 (there the returned point leaves the circle "
+                           "plane). The band is closed for the property's tolerance by point_to_circle_opt_within_epsilon "
+                           "(every input: no circle point closer than d - epsilon, epsilon = 1e-6 <= 1e-6*L). The pre-fix "
+                           "code is kept as pointToCircle_asIs_before_fix with pointToCircle_asIs_before_fix_counterexample",
     "other 26 functions": "no theorem in this vertical: the line/plane family is proved by the C10 vertical "
                           "(D3/Model/DistLine.lean); polygon-pair enumerations (triangle_to_triangle, triangle_to_rectangle, "
                           "rectangle_to_rectangle, rectangle_to_box, line/segment_to_rectangle, line/segment_to_box), the "
@@ -76,6 +78,9 @@ MANIFEST = dict(
 TOL_REL = 1e-6
 TOL_LINE_CIRCLE = 5e-3
 MEMBER_TOL = 1e-9
+# float noise of the oracle's own arithmetic (recomputed |x1 - x2|, support values): a certificate must beat the
+# property's tolerance by more than this, so that an exact tie (error == tol up to the last bit) is not flagged
+NOISE = 1e-12
 BAND = 1e-2
 
 
@@ -968,6 +973,11 @@ def special_point(rng, P2):
         return None
     R, h = P2.frame
     al = A([rng.choice([0.0, 0.0, 0.5, -0.5, 1.0, -1.0, 1.5, -2.0]) for _ in range(3)])
+    if P2.kind == "circle" and rng.random() < 0.4:
+        # around the axis: inside / at the edge of / just outside the epsilon band of point_to_circle, and in the
+        # 1e-3 band the function had before /repo commit 0e4a1a6
+        tiny = rng.choice([1e-7, 5e-7, 1e-6, 2e-6, 1e-4, 5e-4, 9e-4, 2e-3])
+        return P2.center() + R.dot(A([tiny, 0.0, al[2] * h[2] * rng.choice([0.0, 1.0])]))
     return P2.center() + R.dot(al * h)
 
 
@@ -1055,16 +1065,6 @@ def in_band(fn, P1, P2):
             s = nrm(np.cross(u, v))
             if 0 < c < BAND or 0 < s < BAND:
                 return True
-    if P1.kind == "point" and P2.kind == "circle":
-        # direction of (point - centre) against the plane / axis
-        d = P1.p["x"] - P2.center()
-        L = nrm(d)
-        if L > 0:
-            n = P2.dirs()[0]
-            c = abs(float(np.dot(d, n))) / L
-            s = nrm(np.cross(d, n)) / L
-            if 0 < c < BAND or 0 < s < BAND:
-                return True
     return False
 
 
@@ -1111,26 +1111,10 @@ def disk_alternating(P1, P2, eps=1e-8):
     return nrm(y - x)
 
 
-def unnormalised_axis_point(C, p2, L):
-    """the returned circle point is centre + r * perpendicular_to_vector(normal) with a perpendicular vector that
-    is not of unit length (line_to_circle's on-axis branches forget to normalise it)"""
-    import pytransform3d.rotations as pr
-    u = pr.perpendicular_to_vector(C.p["n"])
-    return abs(nrm(u) - 1.0) > 1e-9 and nrm(p2 - (C.p["c"] + C.p["r"] * u)) <= 1e-9 * L
-
-
-def in_axis_band(x, C):
-    dd = x - C.p["c"]
-    rho = nrm(dd - np.dot(dd, C.p["n"]) * C.p["n"])
-    return 0 < rho * rho < 1e-6
-
-
 def classify(fn, P1, P2, res, info):
     """known-finding classification of a certified violation (narrow: function + input class / mechanism);
     None = not a recorded defect"""
     d = res[0]
-    if fn in ("line_to_circle", "line_segment_to_circle") and unnormalised_axis_point(P2, res[2], info["L"]):
-        return "F-C11-line-circle-axis"
     if fn == "disk_to_disk":
         s = nrm(np.cross(P1.p["n"], P2.p["n"]))
         if s < 1e-9:
@@ -1142,7 +1126,7 @@ def classify(fn, P1, P2, res, info):
             return "F-C11-disk-early-stop"
         return None
     if fn == "point_to_circle":
-        return "F-C11-circle-axis-band" if in_axis_band(P1.p["x"], P2) else None
+        return None       # repaired upstream (0e4a1a6); Lean: point_to_circle_opt_within_epsilon
     if fn == "line_to_circle":
         if info["kind"] == "closer-pair" and line_circle_class(P1.p["x"], P1.p["d"], P2.p["c"], P2.p["r"], P2.p["n"]) == "two-roots":
             return "F-C11-line-circle-shat"
@@ -1152,12 +1136,7 @@ def classify(fn, P1, P2, res, info):
         s, e = P1.p["s"], P1.p["e"]
         on_line = C._line_segment_to_circle(s.copy(), e.copy(), P2.p["c"].copy(), float(P2.p["r"]), P2.p["n"].copy())[3]
         if not on_line:
-            # clamped to an end point: either the end point sits in point_to_circle's band, or the clamp itself
-            # is the defect (non-convex target)
-            dist_s = nrm(s - cp_circle(s, P2.p["c"], P2.p["r"], P2.p["n"]))
-            dist_e = nrm(e - cp_circle(e, P2.p["c"], P2.p["r"], P2.p["n"]))
-            if min(abs(d - dist_s), abs(d - dist_e)) > info["tol"] and (in_axis_band(s, P2) or in_axis_band(e, P2)):
-                return "F-C11-circle-axis-band"
+            # clamped to an end point although the target is not convex
             return "F-C11-segcircle-clamp"
         # interior closest point: the value is line_to_circle's
         if d - info["closer_distance"] <= TOL_LINE_CIRCLE * info["L"]:
@@ -1180,14 +1159,14 @@ def oracle(fn, P1, P2, res):
     dref, x1, x2 = reference_pair(P1, P2)
     e1, e2 = P1.excess(x1), P2.excess(x2)
     dref = nrm(x1 - x2)
-    if e1 <= MEMBER_TOL * L and e2 <= MEMBER_TOL * L and dref < d - tol:
+    if e1 <= MEMBER_TOL * L and e2 <= MEMBER_TOL * L and dref < d - tol - NOISE * L:
         return {"kind": "closer-pair", "d": d, "closer_distance": dref, "x1": x1.tolist(), "x2": x2.tolist(),
                 "excess1": e1, "excess2": e2, "L": L, "tol": tol}
     # d too small: separating-plane certificate (convex pairs only)
     if P1.convex() and P2.convex() and dref > d + tol and dref > 0 and e1 <= MEMBER_TOL * L and e2 <= MEMBER_TOL * L:
         n = (x2 - x1) / dref
         lb = -P2.support(-n) - P1.support(n)
-        if math.isfinite(lb) and lb > d + tol:
+        if math.isfinite(lb) and lb > d + tol + NOISE * L:
             return {"kind": "below-lower-bound", "d": d, "lower_bound": lb, "normal": n.tolist(),
                     "x1": x1.tolist(), "x2": x2.tolist(), "L": L, "tol": tol}
     return None
@@ -1236,6 +1215,17 @@ def corpus():
     out.append(("disk_to_disk", Prim("disk", c=A([0, 0, 0.1]), r=1.0, n=z), Prim("disk", c=A([0, 0, -0.1]), r=1.0, n=z)))
     out.append(("point_to_circle", Prim("point", x=A([5e-4, 0, 0])), Prim("circle", c=A([0, 0, 0.0]), r=1.0, n=z)))
     out.append(("point_to_circle", Prim("point", x=A([0.0, 0, 0.5])), Prim("circle", c=A([0, 0, 0.0]), r=1.0, n=z)))
+    # regression inputs of repaired defects (no finding id: a failure here is a violation again):
+    # point_to_circle's old 1e-3 band (0e4a1a6), points inside / at the edge of the new 1e-6 band,
+    # line_to_circle with the line on the circle's axis (714bcb1)
+    for x in ([0.0, 5e-4, 0.0], [9e-4, 0, 0.3], [5e-7, 0, 0], [5e-7, 0, 0.3], [1e-6, 0, 0], [2e-6, 0, -0.1]):
+        out.append(("point_to_circle", Prim("point", x=A(x)), Prim("circle", c=A([0, 0, 0.0]), r=1.0, n=z)))
+    out.append(("point_to_circle", Prim("point", x=A([-0.5 + 4e-4, 2.0, -0.5 + 3e-4])),
+                Prim("circle", c=A([-0.5, 2.0, -0.5]), r=3.0, n=A([-0.6, 0, 0.8]))))
+    out.append(("line_to_circle", Prim("line", x=A([-0.5, 2.0, -0.5]), d=A([0.6, 0, -0.8])),
+                Prim("circle", c=A([-0.5, 2.0, -0.5]), r=3.0, n=A([-0.6, 0, 0.8]))))
+    out.append(("line_segment_to_circle", Prim("segment", s=A([-0.5 - 0.6, 2.0, -0.5 + 0.8]), e=A([-0.5 + 1.2, 2.0, -0.5 - 1.6])),
+                Prim("circle", c=A([-0.5, 2.0, -0.5]), r=3.0, n=A([-0.6, 0, 0.8]))))
     out.append(("line_segment_to_circle", Prim("segment", s=A([0.5, -2.0, 0]), e=A([0.5, -0.2, 0.0])),
                 Prim("circle", c=A([0, 0, 0.0]), r=1.0, n=z)))
     out.append(("line_to_circle", Prim("line", x=A([0.3, 0, 0.0]), d=A([0, 1.0, 0])),
